@@ -244,6 +244,9 @@ def analyse(sfs):
         if anc and not is_ifbody and getattr(u, 'parent', None) is not anc[0]:
             anomalies[(uname, 'scope', 'unit-parent-is-not-its-container', uname)] = \
                 f'{_uname(u, anc)}.parent is {getattr(u, "parent", None)!r}, contained in {anc[0]!r}'
+        if not anc and getattr(u, 'parent', None) is not None:
+            anomalies[(uname, 'scope', 'unit-parent-is-not-its-container', uname)] = \
+                f'{uname}.parent is {getattr(u, "parent", None)!r} although the unit stands at file level'
         allowed = {id(u)} | {id(n) for n in w.scoped} | members(u) | {id(a) for a in anc}
         # a unit whose .parent is not its container is reported once (above); what resolves through that chain is its consequence
         p, hops = getattr(u, 'parent', None), 0
